@@ -11,7 +11,7 @@
    InsufficientResourceError, [Failed 1] = InvalidConstraintError, [OtherError] = any other exception
    (KeyError, IndexError, ValueError, ...), [OutOfFuel] = an explicit oracle stream ran out. *)
 From Coq Require Import ZArith List Bool.
-Require Import Rig.Model.Base.
+Require Import Rig.Generated.GenPlaceShape Rig.Model.Base.
 Import ListNotations.
 Open Scope Z_scope.
 
@@ -33,10 +33,10 @@ Record pmachine := {
   pm_exc : list (chip * resources);         (* chip_resource_exceptions, dict order *)
   pm_dead : list chip }.
 
-(* Machine.__contains__((x, y)) *)
+(* Machine.__contains__((x, y)): the expression is regenerated from rig/place_and_route/machine.py on every run
+   (Generated/GenPlaceShape.v: 0 <= x < width and 0 <= y < height and (x, y) not in dead_chips) *)
 Definition live (m : pmachine) (c : chip) : bool :=
-  (0 <=? fst c) && (fst c <? pm_width m) && (0 <=? snd c) && (snd c <? pm_height m)
-  && negb (chip_mem c (pm_dead m)).
+  gen_machine_contains (pm_width m) (pm_height m) (fun xy => chip_mem xy (pm_dead m)) (fst c) (snd c).
 
 (* chip_resource_exceptions.get(xy, chip_resources) *)
 Definition chip_res (m : pmachine) (c : chip) : resources :=
@@ -709,3 +709,21 @@ Definition init_l2v (m : pmachine) (pl : placement) : l2v :=
                          | Some vs => cupdate (snd vc) (vs ++ [fst vc]) l
                          | None => l end)
             pl (map (fun c => (c, @nil vertex)) (raster m)).
+
+(* ---------------------------------------------------------------------------------------------- *)
+(* The other entry points (their forwarding to sequential.place is shape-checked from the source on *)
+(* every run, Generated/GenPlaceShape.v).  The vertex orders of breadth_first / rcm and the RCM chip *)
+(* order come out of set iteration in CPython: they are inputs here.                                *)
+(* ---------------------------------------------------------------------------------------------- *)
+Definition bf_place (vr : vresources) (m : pmachine) (cs : list pconstr)
+           (bf_vertex_order : list vertex) (chip_order : option (list chip)) : result placement :=
+  seq_place vr m cs (Some bf_vertex_order) chip_order.
+
+(* breadth_first=True: Some (breadth_first_vertex_order ...); breadth_first=False: None *)
+Definition hilbert_place (vr : vresources) (m : pmachine) (cs : list pconstr)
+           (bf_vertex_order : option (list vertex)) : result placement :=
+  seq_place vr m cs bf_vertex_order (Some (hilbert_chip_order m)).
+
+Definition rcm_place (vr : vresources) (m : pmachine) (cs : list pconstr)
+           (rcm_vertex_order : list vertex) (rcm_chip_order : list chip) : result placement :=
+  seq_place vr m cs (Some rcm_vertex_order) (Some rcm_chip_order).
